@@ -110,6 +110,21 @@ def step (st : St) (line : String) : St × String :=
     match st.cell, f.toNat?, t.toNat? with
     | some c, some f, some t => ({ st with cell := some (setFaceType c f t) }, "ok")
     | _, _, _ => (st, "bad-op")
+  | ["scores"] =>
+    -- `get_triangle_score` of every used face (Model.Remesh.triangleScore at Float)
+    match st.cell with
+    | some c =>
+      let parts := (List.range c.faces.size).filterMap (fun i =>
+        match c.faces[i]? with
+        | some f =>
+          if f.used then
+            some (match triangleScore fnF consts c f with
+              | .ok (s, e) => s!"{i} {showF s} {e.n1} {e.n2}"
+              | .error _ => s!"{i} err")
+          else none
+        | none => none)
+      (st, "S" ++ String.join (parts.map (fun p => " ; " ++ p)))
+    | none => (st, "bad-op")
   | ["geom"] =>
     match st.cell with
     | some c => ({ st with cell := some (updAllFaceGeom fnF c) }, "ok")
